@@ -37,20 +37,22 @@ def d1(cx):
              bad_detail="the cycle flag is not `bool(graph)` after the removal loop", sub="flag")
 
 
-@rule("D2", ["C14"], "dependency collection is exhaustive over container kinds and closes transitively")
+@rule("D2", ["C14"], "hybrid classes in fields / declared dependencies / kernel arguments are mapped to their struct classes")
 def d2(cx):
     m = cx.m
-    want = {
-        "struct::Struct._get_inner_types": lambda e: isinstance(e, ast.ListComp) and norm(e.elt).endswith(".ftype") and norm(e.generators[0].iter) == "cls._fields" and not e.generators[0].ifs,
-        "array::Array._get_inner_types": lambda e: norm(e) == "[cls._itemtype]",
-        "ref::Ref._get_inner_types": lambda e: norm(e) == "[self._reftype]",
-        "ref::UnionRef._get_inner_types": lambda e: norm(e) in ("cls._reftypes", "list(cls._reftypes)"),
-    }
-    for spec, pred in want.items():
-        f = m.func(spec)
-        r = [x for x in own_nodes(f) if isinstance(x, ast.Return)]
-        cx.need(len(r) == 1, f"{spec}: single return expected")
-        cx.check(pred(r[0].value), r[0], construct=f"{spec.split('::')[1]}: {short(r[0])}", detail="returns every inner type of the kind", bad_detail="does not return all inner types (fields' types / item type / reference target / union members)")
+    # hybrid classes are mapped to their struct
+    mh = m.func("hybrid_class::MetaHybridClass.__new__")
+    src = norm(mh)
+    cx.recog("_XoStruct" in src, mh, "MetaHybridClass.__new__: mapping of hybrid classes to _XoStruct")
+    cx.check("_depends_on[ii] = tt._XoStruct" in src and "xofields[nn] = tt._XoStruct" in norm(m.func("hybrid_class::_build_xofields_dict")) and "aa.atype = aa.atype._XoStruct" in src, mh,
+             construct="hybrid classes in _xofields/_depends_on/kernel args -> their _XoStruct", detail="dependencies are expressed in struct classes (which have C APIs)",
+             bad_detail="a hybrid class is not replaced by its _XoStruct in fields/_depends_on/kernel args", sub="hybrid")
+
+
+
+@rule("D2s", ["C14"], "sort_classes (diagnostic): both dependency sources collected, transitive closure, an edge per dependency")
+def d2s(cx):
+    m = cx.m
     f = m.func("context::sort_classes")
     fl = Flow(f)
     outer = [l for l in f.body if isinstance(l, ast.For)]
@@ -83,12 +85,6 @@ def d2(cx):
     asg = [s for s in lp.body if isinstance(s, ast.Assign) and isinstance(s.targets[0], ast.Subscript) and norm(s.targets[0].slice) == f"{cv}.__name__"]
     cx.check(len(asg) == 1 and names and norm(asg[0].value) == norm(names[0].func.value), asg[0] if asg else lp, construct=f"deps[{cv}.__name__] = <edge list>", detail="one entry per class, keyed by name",
              bad_detail="the dependency list is not stored under the class name", sub="edges")
-    # hybrid classes are mapped to their struct
-    mh = m.func("hybrid_class::MetaHybridClass.__new__")
-    src = norm(mh)
-    cx.check("_depends_on[ii] = tt._XoStruct" in src and "xofields[nn] = tt._XoStruct" in norm(m.func("hybrid_class::_build_xofields_dict")) and "aa.atype = aa.atype._XoStruct" in src, mh,
-             construct="hybrid classes in _xofields/_depends_on/kernel args -> their _XoStruct", detail="dependencies are expressed in struct classes (which have C APIs)",
-             bad_detail="a hybrid class is not replaced by its _XoStruct in fields/_depends_on/kernel args", sub="hybrid")
 
 
 @rule("D4", ["C14"], "topological_sort: every node enters the result exactly once (disjoint frontier sources, Kahn bookkeeping)")
@@ -238,3 +234,102 @@ def d6(cx):
                 else:
                     cx.note(st, construct=f"{m.qualname(fn).split('::')[1]}: stores `{c0}.{attr}`, never read here", detail="not a memo of this function")
     cx.need(n >= 8, f"only {n} generator methods found")
+
+
+@rule("DG", ["C14"], "sort_classes, evaluated on every dependency graph of up to four classes: each class once, after everything it depends on; cycles refused")
+def dg(cx):
+    """`sort_classes` / `topological_sort` of the current source are evaluated by the checker's interpreter on abstract
+    classes (a name, inner types, declared `_depends_on`) for EVERY directed graph on up to 4 classes (3 in the quick
+    tier are exhaustive over all edge sets incl. cycles; 4 exhaustive in the thorough tier) and every non-empty set of
+    roots handed to it.  Required: acyclic -> the result lists every class reachable from the roots exactly once and
+    every class after all classes it depends on; a class that cannot generate an API (scalar-like: no `_gen_c_api`) is
+    left out; cyclic -> ValueError.  Dependency graphs are type-level configuration (like class descriptors), not data."""
+    import itertools
+
+    from ..peval import Builtin, Interp, Obj
+
+    m = cx.m
+    I = Interp(m)
+    f = m.func("context::sort_classes")
+    nmax = 4 if cx.tier == "thorough" else 3
+    n_graphs = n_ok = 0
+    bad_seen = 0
+    for n in range(1, nmax + 1):
+        pairs = [(a, b) for a in range(n) for b in range(n) if a != b]
+        for mask in range(1 << len(pairs)):
+            edges = [p for k, p in enumerate(pairs) if mask >> k & 1]
+            # transitive closure / cycle test (oracle side, plain python)
+            reach = {a: {b for x, b in edges if x == a} for a in range(n)}
+            changed = True
+            while changed:
+                changed = False
+                for a in range(n):
+                    new = set().union(*[reach[b] for b in reach[a]]) if reach[a] else set()
+                    if not new <= reach[a]:
+                        reach[a] |= new
+                        changed = True
+            root_sets = [(n - 1,)] if n > 1 else [(0,)]
+            root_sets += [tuple(range(n))] + ([tuple(reversed(range(n)))] if n > 1 else [])
+            for roots in root_sets:
+                reachable = set(roots) | set().union(*[reach[r] for r in roots])
+                cyclic = any(a in reach[a] for a in reachable)
+                n_graphs += 1
+                out = {}
+
+                def thunk():
+                    objs = []
+                    for k in range(n):
+                        o = Obj("class", {"__name__": f"K{k}", "_gen_c_api": Builtin("api", lambda k=k: f"api{k}")}, name=f"K{k}")
+                        objs.append(o)
+                    for k in range(n):
+                        deps = [objs[b] for a, b in edges if a == k]
+                        # half through inner types, half through _depends_on (both sources must be honoured)
+                        inner, declared = deps[::2], deps[1::2]
+                        objs[k].attrs["_get_inner_types"] = Builtin("inner", lambda inner=inner: list(inner))
+                        objs[k].attrs["_depends_on"] = list(declared)
+                    res = I.call(I.global_lookup("context", "sort_classes"), [[objs[r] for r in roots]], {})
+                    out["res"] = [I.getattr(c, "__name__") for c in res]
+                    return None
+
+                res = I.explore(thunk, max_paths=4)
+                label = f"classes {n}, edges {edges}, roots {list(roots)}"
+                if len(res) != 1:
+                    raise AnalysisError(f"[DG] {label}: evaluation forks")
+                exc = res[0]["exc"]
+                if cyclic:
+                    if not (exc is not None and exc.etype == "ValueError"):
+                        bad_seen += 1
+                        if bad_seen <= 3:
+                            cx.bad(f, construct=label, detail=f"a dependency cycle is not refused (result {out.get('res')}): the emitted source uses a type before its definition")
+                    else:
+                        n_ok += 1
+                    continue
+                if exc is not None:
+                    if exc.etype in ("AttributeError", "NameError"):
+                        raise AnalysisError(f"[DG] sort_classes cannot be evaluated: {exc.etype}: {exc.msg}")
+                    bad_seen += 1
+                    if bad_seen <= 3:
+                        cx.bad(f, construct=label, detail=f"sort_classes raises {exc.etype} on an acyclic graph: {exc.msg}")
+                    continue
+                got = out["res"]
+                want = {f"K{k}" for k in reachable}
+                probs = []
+                if sorted(got) != sorted(want):
+                    miss, dup = sorted(want - set(got)), sorted({x for x in got if got.count(x) > 1})
+                    probs.append((f"missing {miss}" if miss else "") + (f" duplicated {dup}" if dup else "") + (f" unexpected {sorted(set(got) - want)}" if set(got) - want else ""))
+                pos = {nm: i for i, nm in enumerate(got)}
+                for a, b in edges:
+                    if f"K{a}" in pos and f"K{b}" in pos and pos[f"K{b}"] > pos[f"K{a}"]:
+                        probs.append(f"K{b} is emitted after K{a}, which depends on it")
+                        break
+                if probs:
+                    bad_seen += 1
+                    if bad_seen <= 3:
+                        cx.bad(f, construct=f"{label} -> {got}", detail="; ".join(p for p in probs if p) + ": each class API must be emitted exactly once, after all of its dependencies")
+                else:
+                    n_ok += 1
+    if bad_seen > 3:
+        cx.insts[-1].detail += f" (+{bad_seen - 3} more graphs)"
+    if not bad_seen:
+        cx.ok(f, construct=f"{n_graphs} (graph, roots) cases over up to {nmax} classes", detail="every reachable class exactly once and after its dependencies; cycles refused")
+    cx.need(n_graphs >= 150, f"only {n_graphs} graphs evaluated")
